@@ -17,9 +17,10 @@ func init() {
 }
 
 func checkC20(e *core.Env) {
+	curEnv = e
 	e.SetRule("in-process streams of all stream kinds, both directions, 1..200 attempted sends, receiver stalling after k in {0,1,2,5} receives (optionally after Header()), with and without pending header frames; counters at the API boundary assert at every successful send return: completed sends <= receives started by the peer + 1; the stalled sender is observed parked inside SendMsg, then one of {peer receives, peer finishes, context ends} is applied and the send must return; distinct = (direction, kind, k, headers, release)")
 	e.Assume("a receive counts as started when the application calls RecvMsg or Header(); the bound is read after the send returned, which can only loosen it")
-	runC20(e, e.N(160, 1600))
+	runC20(e, e.N(240, 3000))
 }
 
 // waitStalled waits until the run's event log has been quiet for a while and
@@ -48,6 +49,7 @@ func waitStalled(run *Run, done <-chan struct{}) (stalled bool, inSend bool) {
 }
 
 func runC20(e *core.Env, n int) {
+	curEnv = e
 	inp := NewInproc(&Service{}, carrierOpt{})
 	defer inp.Close()
 	e.Cases("stall", n, func(i int, r *rand.Rand) {
